@@ -540,6 +540,10 @@ def drive_wrapper(data, sizes, personality='iter', order=None, allowed=None,
         w.close()
     except Exception as e:
         error = error or ['close', type(e).__name__]
+    # the wrapper is asked first, through its public queries: a wrapper may
+    # settle its inspectors (finish()) lazily, on the first question after
+    # the end of the stream
+    fmt_after, fmts_after = w_format(w), w_formats(w)
     per = {}
     for n, insp in sorted(wrapper_inspectors(w).items()):
         if watch_regions and len(bad) < 3:
@@ -548,7 +552,7 @@ def drive_wrapper(data, sizes, personality='iter', order=None, allowed=None,
                 b['inspector'] = n
                 bad.append(b)
         per[n] = verdict(insp)
-    return {'per': per, 'format': w_format(w), 'formats': w_formats(w),
+    return {'per': per, 'format': fmt_after, 'formats': fmts_after,
             'samples': samples, 'error': error, 'region_bad': bad,
             'order': names, 'got': got, 'src': src, 'wrapper': w}
 
